@@ -71,6 +71,7 @@ func main() {
 		}
 		abs, _ := filepath.Abs(kv[1])
 		substMap[filepath.Join(*repo, kv[0])] = abs
+		substSrc[filepath.Join(*repo, kv[0])] = abs
 	}
 
 	enabled := map[string]bool{}
@@ -130,6 +131,9 @@ func main() {
 		for _, e := range ents {
 			if strings.HasSuffix(e.Name(), ".go") {
 				abs, _ := filepath.Abs(filepath.Join(kv[0], e.Name()))
+				if !wanted(abs, filepath.Join(*repo, kv[1])) {
+					continue
+				}
 				overlay[filepath.Join(*repo, kv[1], e.Name())] = abs
 			}
 		}
@@ -143,6 +147,70 @@ func main() {
 }
 
 var substMap = map[string]string{}
+var substSrc = map[string]string{} // the same, kept after doPackage consumed substMap
+
+// wanted: a harness file may carry a line "//verif:if-var NAME" or "//verif:unless-var NAME" before its
+// package clause; it is then added only if the package does (does not) declare a package-level
+// variable NAME.  This keeps the harness compiling when the state it reaches into moves.
+func wanted(file, pkgDir string) bool {
+	b, err := os.ReadFile(file)
+	if err != nil {
+		die(err)
+	}
+	for _, line := range strings.Split(string(b), "\n") {
+		if strings.HasPrefix(line, "package ") {
+			break
+		}
+		var want bool
+		var name string
+		switch {
+		case strings.HasPrefix(line, "//verif:if-var "):
+			want, name = true, strings.TrimSpace(strings.TrimPrefix(line, "//verif:if-var "))
+		case strings.HasPrefix(line, "//verif:unless-var "):
+			want, name = false, strings.TrimSpace(strings.TrimPrefix(line, "//verif:unless-var "))
+		default:
+			continue
+		}
+		if hasPkgVar(pkgDir, name) != want {
+			return false
+		}
+	}
+	return true
+}
+
+func hasPkgVar(dir, name string) bool {
+	ents, err := os.ReadDir(dir)
+	if err != nil {
+		die(err)
+	}
+	fset := token.NewFileSet()
+	for _, e := range ents {
+		if !strings.HasSuffix(e.Name(), ".go") || strings.HasSuffix(e.Name(), "_test.go") {
+			continue
+		}
+		path := filepath.Join(dir, e.Name())
+		var src any
+		if alt, ok := substSrc[path]; ok {
+			src, _ = os.ReadFile(alt)
+		}
+		f, err := parser.ParseFile(fset, path, src, 0)
+		if err != nil {
+			continue
+		}
+		for _, d := range f.Decls {
+			if gd, ok := d.(*ast.GenDecl); ok && gd.Tok == token.VAR {
+				for _, sp := range gd.Specs {
+					for _, n := range sp.(*ast.ValueSpec).Names {
+						if n.Name == name {
+							return true
+						}
+					}
+				}
+			}
+		}
+	}
+	return false
+}
 
 func die(err error) {
 	fmt.Fprintln(os.Stderr, "instr:", err)
